@@ -123,6 +123,11 @@ func c19Gen(c *Ctx) *c19Scenario {
 		sc.DelayMs = []int{1, 20, 50}[g.Intn(3)]
 		sc.DelayEvery = g.Range(3, 9)
 	}
+	if sc.FastKA && sc.DelayMs > 1 {
+		// a keepalive timeout of 400ms is a statement about the pipe: a frame read in small fragments with 20-50ms pauses
+		// takes longer than that, and the server is right to give the process up.  Slow pipes keep the 10s timeout.
+		sc.FastKA = false
+	}
 	if !c.FaultFree && g.Chance(1, 3) {
 		sc.Fault = []string{"stall", "close", "eof", "corrupt"}[g.Intn(4)]
 		sc.FaultAt = g.Range(1, 400)
